@@ -29,6 +29,35 @@ theorem C10_model_no_conflict {E : Env} {base : J} {ld rd : List Op} {ds : List 
     (h : decideMerge E base ld rd = .ok ds) : ∀ d ∈ ds, d.conflict = false :=
   decideMerge_useX_noConflict (C10.plainTableB_sound hv) hroot hs h
 
+/-- the option combinations of the use-* family the command line accepts -/
+def C10.useArgs : List MergeArgs :=
+  (["use-base", "use-local", "use-remote"].flatMap fun m =>
+    ([none, some "use-base", some "use-local", some "use-remote"] : List (Option String)).flatMap fun i =>
+      ([none, some "use-base", some "use-local", some "use-remote", some "remove", some "clear-all"] : List (Option String)).flatMap fun o =>
+        [true, false].map fun t => (⟨m, i, o, t⟩ : MergeArgs))
+
+set_option maxRecDepth 100000 in
+theorem C10.useArgs_ok : C10.useArgs.all (fun a =>
+    C10.plainTableB (notebookStrategies a).table && isUse (((notebookStrategies a).get "/").getD "")) = true := by
+  decide +kernel
+
+/-- **C10, "leaves no unresolved conflict", quantified over the command-line options**: for each of the 144 use-*
+    option combinations, every base, pair of diffs and oracle. (`notebookStrategies` is compared with the tables of the
+    real `notebook_merge_strategies` on every run.) -/
+theorem C10_cli_no_conflict {O : Oracle} {cfg : Cfg} {render : Render} {a : MergeArgs} (ha : a ∈ C10.useArgs)
+    {base : J} {ld rd : List Op} {ds : List MD}
+    (h : decideNotebookMerge O cfg render a base ld rd = .ok ds) : ∀ d ∈ ds, d.conflict = false := by
+  have hall := C10.useArgs_ok
+  rw [List.all_eq_true] at hall
+  have hp := hall a ha
+  simp only [Bool.and_eq_true] at hp
+  obtain ⟨h1, h2⟩ := hp
+  cases hg : (notebookStrategies a).get "/" with
+  | none => simp [hg, isUse] at h2
+  | some s =>
+    simp only [hg, Option.getD_some] at h2
+    exact C10_model_no_conflict (E := { O := O, cfg := cfg, S := notebookStrategies a, render := render }) h1 hg h2 h
+
 namespace C10ex
 def tab : List (String × String) :=
   [("/", "use-local"), ("/cells/*/id", "remove"), ("/cells/*/source", "use-local"), ("/nbformat_minor", "take-max")]
